@@ -201,6 +201,65 @@ def lang_sort_cases(chk, quick):
     chk.sample({"lang": cases[1][1][:200], "expected": cases[1][2][:200]})
 
 
+def select_cases(chk, quick):
+    """nth_smallest / nth_largest / median through the language with a comparator by key (ties) that errors
+    on chosen arguments, against the quickselect model (exact element) and the oracle (key of the k-th)"""
+    rng = chk.rng
+    cases = []
+    for _ in range(120 if quick else 2000):
+        n = rng.choice([1, 2, 3, 4, 5, 7, 8, 12, 20, 21, 33])
+        xs = gen_list(rng, n)
+        L = xs_lit(xs)
+        i = rng.randrange(0, n + 1)
+        mode = rng.choice(["none", "none", "first", "pair"])
+        fa, fb = -7, -7
+        cond = "false"
+        if mode == "first":
+            fa, fb = rng.choice(xs), -1
+            cond = f"a == {fa}"
+        elif mode == "pair" and n >= 2:
+            fa, fb = rng.sample(xs, 2)
+            cond = f"a == {fa} && b == {fb}"
+        f = f"(a: int, b: int)->{{if({cond}, error('boom'), cmp(div_floor(a, 1000), div_floor(b, 1000)))}}"
+        by_key = sorted(xs, key=lambda x: x // 1000)
+        cases.append(("nth_smallest", f"{L}.nth_smallest({i}, {f})", f"ord select 1000 {i} {fa} {fb} {show(xs)}",
+                      None if i >= n else by_key[i] // 1000, xs))
+        if i < n:
+            cases.append(("nth_largest", f"{L}.nth_largest({i}, {f})", f"ord select 1000 {n - i - 1} {fa} {fb} {show(xs)}",
+                          by_key[n - i - 1] // 1000, xs))
+        cases.append(("median", f"{L}.median({f})", f"ord select 1000 {n // 2} {fa} {fb} {show(xs)}", by_key[n // 2] // 1000, xs))
+    dumps = eval_exprs([c[1] for c in cases])
+    model = run_model([c[2] for c in cases])
+    for (kind, expr, mline, wantkey, xs), d, rm in zip(cases, dumps, model):
+        chk.evaluations += 1
+        chk.count("select:" + kind)
+        replay = {"src": f"let r = {expr};", "get": ["r"], "got": d}
+        if d.startswith("(error "):
+            got = "oob" if "out of bounds" in d else "fail"
+        elif d.startswith("(int S "):
+            got = "ok " + d[7:-1]
+        else:
+            got = d
+        # oracle: out of range -> error; otherwise the comparator's error or an element with the k-th key
+        if wantkey is None:
+            good = got == "oob"
+        elif got.startswith("ok "):
+            v = int(got[3:])
+            good = v in xs and v // 1000 == wantkey
+        else:
+            good = got == "fail" and "boom" in d and "false" not in expr.split("->")[1][:12]
+        if not good:
+            k2 = "panic" if d.startswith("panic") else "wrong"
+            chk.violation(f"lang:select:{kind}:{k2}", f"{expr[:300]} evaluates to {d[:120]}; the element at that rank has key {wantkey}", replay)
+            continue
+        chk.count("select:outcome:" + got.split(" ")[0])
+        if got.startswith("ok") and len(set(x // 1000 for x in xs)) < len(xs):
+            chk.nontrivial.add(("select", expr))
+        if rm != got:
+            chk.violation(f"tie:select:{kind}", f"quickselect model disagrees with the implementation (which satisfies the oracle) on {expr[:200]}: model={rm} impl={got}",
+                          {"src": replay["src"], "model": mline}, no_input=True)
+
+
 def accounting_cases(chk, quick):
     """accounted bytes return to the baseline after a sort whose comparator fails midway"""
     rng = chk.rng
@@ -741,6 +800,7 @@ def run(chk):
     lang_sort_cases(chk, quick)
     accounting_cases(chk, quick)
     heap_cases(chk, quick)
+    select_cases(chk, quick)
     derive_cases(chk, quick)
     format_cases(chk, quick)
     regression_cases(chk)
